@@ -902,7 +902,9 @@ fn eval_c08(case: &Case, sc: &mut Scratch, res: &mut EvalResult) {
                 res.stats.check("c08_poison_rejected");
                 let pid = case.notes.first().and_then(|n| n.split(':').nth(1)).unwrap_or("").to_string();
                 if o.class == ResultClass::Ok {
-                    push("POISON_ACCEPTED", pid.clone(), format!("run succeeded although {poison_path} contains the unsupported construct {pid}"));
+                    // generated constructs: one signature per base construct, not per position
+                    let pid_sig = if pid.starts_with("gen/") { pid.split('/').take(2).collect::<Vec<_>>().join("/") } else { pid.clone() };
+                    push("POISON_ACCEPTED", pid_sig, format!("run succeeded although {poison_path} contains the unsupported construct {pid}"));
                 }
                 if o.class != ResultClass::Ok {
                     res.stats.check("c08_failed_run_left_output_alone");
